@@ -7,4 +7,4 @@ Extraction "model.ml" load nd can_reach successors predecessors service_nodes al
   number_of_vehicles_required_to_serve maximal_formation_count_for
   start_depots_sorted_by_distance_to end_depots_sorted_by_distance_from
   loc_distance loc_travel_time minimal_duration_between dead_head_time_between
-  dead_head_distance_between idle_time_between type_ids nid_cmp vid_cmp lookup_sorted is_depot n_travel_dist net_wf_b max_vehicles.
+  dead_head_distance_between idle_time_between type_ids nid_cmp vid_cmp lookup_sorted is_depot n_travel_dist net_wf_b max_vehicles overflow_ok_b.
